@@ -141,7 +141,7 @@ def lane_obligations(S, ctx, tag, batched, make_single, ic, kc, hyp, fn, rp, wha
     if chosen is not None:
         jc = z3.Int("lane_other")
         other = z3.substitute(chosen, (ic, jc))
-        S.prove(f"{tag}/lanes-use-different-keys", ctx, chosen != other, hyps=hyp + [jc >= 0, jc < Nz, ic != jc] + kit.rng_index_injective(ctx), function=fn, replay=rp,
+        S.prove(f"{tag}/lanes-use-different-keys", ctx, chosen != other, hyps=hyp + [jc >= 0, jc < Nz, ic != jc] + kit.rng_ground_injectivity([chosen, other]), function=fn, replay=rp,
                 what="the per-environment keys of different environments are different keys (A-RNG: split / fold_in injective in the index): the N collections are independent")
     else:
         S.fact(f"{tag}/lane-key-found", bool(cands) is False and False, function=fn, replay=rp, what="a per-environment key derived from the given key and the lane index drives lane i", detail=[str(c_)[:120] for c_ in cands[:4]])
@@ -270,7 +270,7 @@ def unit_off_policy_reset(S):
     if chosen is not None:
         jc = z3.Int("lane_other")
         for nm_, t_ in (("warm-up", chosen[0]), ("initial-state", chosen[1])):
-            S.prove(f"DQN.reset/lanes-use-different-{nm_}-keys", ctx, t_ != z3.substitute(t_, (ic, jc)), hyps=hyp + [jc >= 0, jc < Nz, ic != jc] + kit.rng_index_injective(ctx), function=fn, replay=rp,
+            S.prove(f"DQN.reset/lanes-use-different-{nm_}-keys", ctx, t_ != z3.substitute(t_, (ic, jc)), hyps=hyp + [jc >= 0, jc < Nz, ic != jc] + kit.rng_ground_injectivity([t_, z3.substitute(t_, (ic, jc))]), function=fn, replay=rp,
                     what="different environments get different keys (A-RNG: split / fold_in injective in the index): the N warm-ups are independent")
 
 
